@@ -77,17 +77,18 @@ BOUNDS = {
                         'rect2x1n (atmosphere layer named like a subsurface layer, as g4.dat)',
                         'rect2x2Lw0 / rect2x2Lw3 (left-justified, the first / the last column renamed to a name that '
                         'exactly fills its field)',
+                        'conv1rt / conv2rt (naming conventions 1 and 2: one column refined, written and read back)',
                         'hang7r0..6 (a 7-node column with three straight mid-side nodes among six quadrilaterals, '
                         'node list started at each of its 7 nodes)'],
               'depth': {'rect2x2': 2, 'rect3x2': 2, 'mixed6': 2, 'g7': 1, 'rect2x2L': 1, 'rect2x1n': 2, 'hang7r0': 2,
-                        'rect2x2Lw0': 2, 'rect2x2Lw3': 1, 'hang7r1': 1, 'hang7r2': 1, 'hang7r3': 1, 'hang7r4': 1, 'hang7r5': 1, 'hang7r6': 1},
+                        'rect2x2Lw0': 2, 'rect2x2Lw3': 1, 'conv1rt': 1, 'conv2rt': 2, 'hang7r1': 1, 'hang7r2': 1, 'hang7r3': 1, 'hang7r4': 1, 'hang7r5': 1, 'hang7r6': 1},
               'subsets_depth0': 'every non-empty column subset (<= 6 columns); rect3x2: singles, pairs and the full set',
               'subsets_deeper': 'singles and the full set; single-object arguments (split_column quad, delete_column, '
                                 'rename, connection, layer): the first and the last canonical candidate'},
     'thorough': {'builders': 'as quick',
-                 'seeds': ['rect2x2', 'rect3x2', 'mixed6', 'g7', 'rect2x2L', 'rect2x1n', 'hang7r0..6', 'rect2x2Lw0', 'rect2x2Lw3'],
+                 'seeds': ['rect2x2', 'rect3x2', 'mixed6', 'g7', 'rect2x2L', 'rect2x1n', 'hang7r0..6', 'rect2x2Lw0', 'rect2x2Lw3', 'conv1rt', 'conv2rt'],
                  'depth': {'rect2x2': 3, 'rect3x2': 2, 'mixed6': 3, 'g7': 1, 'rect2x2L': 2, 'rect2x1n': 3, 'hang7r0': 2,
-                           'rect2x2Lw0': 2, 'rect2x2Lw3': 2, 'hang7r1': 2, 'hang7r2': 2, 'hang7r3': 2, 'hang7r4': 2, 'hang7r5': 2, 'hang7r6': 2},
+                           'rect2x2Lw0': 2, 'rect2x2Lw3': 2, 'conv1rt': 2, 'conv2rt': 2, 'hang7r1': 2, 'hang7r2': 2, 'hang7r3': 2, 'hang7r4': 2, 'hang7r5': 2, 'hang7r6': 2},
                  'subsets_depth0': 'every non-empty column subset (<= 6 columns); g7: singles on a stride, one pair, full set',
                  'subsets_depth1': 'all subsets while <= 6 columns, otherwise singles, pairs of neighbours and the full set',
                  'subsets_depth2': 'singles (first/last) and the full set, reduced alphabet'},
@@ -509,6 +510,22 @@ def make_seed(name):
         geo = seed_rect(2, 2, 2, [(2, -7.)], justify='l')
         with quiet():
             geo.rename_column(geo.columnlist[int(name[-1])].name, 'w01')
+    elif name in ('conv1rt', 'conv2rt'):
+        # naming convention 1 / 2 (numeric column names, the letters are in the layer part of a block name): one
+        # column refined once, written and read back - a geometry as a user meets it in a second session
+        import mulgrids
+        with quiet():
+            geo = mulgrids.mulgrid().rectangular([10.], [10.], [10., 10.], convention=int(name[4]), atmos_type=2)
+            geo.refine()
+            path = os.path.join(core.scratch(), 'c10seed_%d.dat' % os.getpid())
+            geo.write(path)
+            geo = mulgrids.mulgrid(path)
+            os.remove(path)
+            col = geo.columnlist[0]
+            col.surface = -7.
+            geo.set_column_num_layers(col)
+            geo.setup_block_name_index()
+            geo.setup_block_connection_name_index()
     elif name == 'rect2x1n':
         geo = seed_rect(2, 1, 0, [(1, -7.)], atm_like_layer=True)
     elif name.startswith('hang7r'):
@@ -643,6 +660,12 @@ def ops_of_factory(tier):
                         ops.append(['refine', S, b])
                         if dup_ok(S, True) and b in (False, True):
                             ops.append(['refine', S, b, 'dup'])
+                elif len(S) <= 2 and not reduced:
+                    # a region holding a column with more than 4 sides (documented as unsupported), alone or
+                    # with one other column, in both orders
+                    for T in ([S] if len(S) == 1 else [S, S[::-1]]):
+                        for b in BISECT:
+                            ops.append(['refine', T, b, 'unsupported'])
             if not reduced and all(small.values()):
                 ops.append(['refine', [], False])          # the default argument: all columns
             # split_column: every quadrilateral x every one of its nodes
@@ -675,11 +698,21 @@ def ops_of_factory(tier):
             ops.append(['rename_column', [0, nc - 1], 'list'])
             if not reduced:
                 ops.append(['rename_column', list(range(nc)), 'list'])
+            # maps whose new names overlap the old ones: a swap, a cycle, an identity entry next to a real one
+            ops.append(['rename_column', [0, nc - 1], 'swap'])
+            ops.append(['rename_column', [0, nc - 1], 'partial-identity'])
+            if nc > 2:
+                ops.append(['rename_column', [0, 1, nc - 1], 'cycle'])
         nl = len(geo.layerlist)
         for li in pick(range(nl), cand):
             ops.append(['rename_layer', [li], 'str'])
         if nl > 1 and not reduced:
             ops.append(['rename_layer', list(range(nl)), 'list'])
+        if nl > 2:
+            ops.append(['rename_layer', [1, nl - 1], 'swap'])
+            if not reduced:
+                ops.append(['rename_layer', [1, nl - 1], 'partial-identity'])
+                ops.append(['rename_layer', [0, 1, nl - 1], 'cycle'])
         # primitives
         for i in pick(range(nc), cand):
             ops.append(['delete_column', i])
@@ -814,6 +847,18 @@ TWIN_OPS = ('refine', 'decompose_columns', 'reduce', 'rename_column', 'rename_la
             'snap_columns_to_layers', 'snap_columns_to_nearest_layers', 'translate', 'rotate')
 
 
+def rename_targets(old, mode, fresh):
+    """New names for a rename: fresh ones, or a map onto the old names themselves (the result is still a set of
+    distinct names, so the map is a legal simultaneous renaming)."""
+    if mode == 'swap':
+        return old[::-1]
+    if mode == 'cycle':
+        return old[1:] + old[:1]
+    if mode == 'partial-identity':
+        return [old[0]] + fresh[1:]
+    return fresh
+
+
 def selection(names, S, dup):
     """The argument list for a selection: canonical order, or - 'dup' - in reverse order with the first member
     named a second time (overlapping polygon selections concatenated, a name typed twice)."""
@@ -837,7 +882,8 @@ def apply_op(st, op):
     if kind == 'refine':
         S, b = op[1], op[2]
         do(st, 'refine', selection([c.name for c in cols], S, is_dup(op)), bisect=b)
-        return True, 'bisect=%s%s' % (b, ',repeated-member' if is_dup(op) else '')
+        return True, 'bisect=%s%s%s' % (b, ',repeated-member' if is_dup(op) else '',
+                                        ',unsupported-region' if op[-1] == 'unsupported' else '')
     if kind == 'split_column':
         ok = geo.split_column(cols[op[1]].name, nodes[op[2]].name)
         if ok is not True:
@@ -855,23 +901,29 @@ def apply_op(st, op):
         return True, 'repeated-member' if is_dup(op) else ''
     if kind == 'rename_column':
         old = [cols[i].name for i in op[1]]
-        new = fresh_names(geo.column.keys(), geo.colname_length, 'z', len(old))
+        new = rename_targets(old, op[2], fresh_names(geo.column.keys(), geo.colname_length, 'z', len(old)))
+        objs = [geo.column[nm] for nm in old]
         if op[2] == 'str':
             ok = do(st, 'rename_column', old[0], new[0])
         else:
             ok = do(st, 'rename_column', old, new)
         if ok is not True:
             raise ValueError('rename_column of existing column(s) returned %r' % (ok,))
+        if [c.name for c in objs] != new:
+            st['_renamed'] = 'columns %r renamed with %r are now called %r' % (old, new, [c.name for c in objs])
         return False, op[2]
     if kind == 'rename_layer':
         old = [geo.layerlist[i].name for i in op[1]]
-        new = fresh_names(geo.layer.keys(), geo.layername_length, 'y', len(old))
+        new = rename_targets(old, op[2], fresh_names(geo.layer.keys(), geo.layername_length, 'y', len(old)))
+        objs = [geo.layer[nm] for nm in old]
         if op[2] == 'str':
             ok = do(st, 'rename_layer', old[0], new[0])
         else:
             ok = do(st, 'rename_layer', old, new)
         if ok is not True:
             raise ValueError('rename_layer of existing layer(s) returned %r' % (ok,))
+        if [l.name for l in objs] != new:
+            st['_renamed'] = 'layers %r renamed with %r are now called %r' % (old, new, [l.name for l in objs])
         return False, op[2]
     if kind == 'delete_column':
         geo.delete_column(cols[op[1]].name)
@@ -1018,10 +1070,16 @@ def step_impl(st, op, sink):
     st.pop('_roundtrip', None)
     st.pop('_call', None)
     st.pop('_argmod', None)
+    st.pop('_renamed', None)
     main_before = canon_geo(st['geo']) if kind == 'translate_source' else None
+    # a region holding a column with more than four sides is documented as unsupported: refine() may refuse by
+    # a message or by an exception, but a refusal must leave the geometry as it was
+    unsupported = kind == 'refine' and op[-1] == 'unsupported'
+    refused_before = canon_geo(st['geo']) if unsupported else None
     twin = None
-    if kind in TWIN_OPS:
+    if kind in TWIN_OPS and not unsupported:
         twin = copy.deepcopy(st['geo'])
+    raised = None
     try:
         with quiet():
             promise, klass = apply_op(st, op)
@@ -1030,8 +1088,10 @@ def step_impl(st, op, sink):
     except core.HarnessError:
         raise
     except Exception as e:
-        return [('%s|%s|raises-%s|%s' % (ID, kind, type(e).__name__, op_class(op)),
-                 '%s raised %s: %s' % (kind, type(e).__name__, str(e)[:200]))]
+        if not unsupported:
+            return [('%s|%s|raises-%s|%s' % (ID, kind, type(e).__name__, op_class(op)),
+                     '%s raised %s: %s' % (kind, type(e).__name__, str(e)[:200]))]
+        raised, promise, klass = e, True, op_class(op)
     geo = st['geo']
     with quiet():
         found = invariant(geo, promise_mesh=promise, coords_too=promise and was_valid)
@@ -1050,6 +1110,11 @@ def step_impl(st, op, sink):
         with quiet():
             for clause, text in invariant(src, promise_mesh=False):
                 hard.append(('source:' + clause, 'in the geometry the layers were copied from: ' + text))
+    if st.get('_renamed'):
+        hard.append(('names-not-as-mapped', st.pop('_renamed')))
+    if unsupported and canon_geo(geo) != refused_before:
+        hard.append(('refused-but-changed', 'refine() of a region with a column of more than 4 sides %s and left the '
+                     'geometry changed' % ('raised %s' % type(raised).__name__ if raised else 'returned')))
     for k, a, b in st.pop('_roundtrip', None) or ():
         hard.append(('objects-lost', '%d %s written, %d read back' % (a, k, b)))
     # arguments are the caller's: unchanged after the call; and the same argument objects used on a second,
@@ -1121,7 +1186,8 @@ def step_impl(st, op, sink):
 def op_class(op):
     kind = op[0]
     if kind == 'refine':
-        return 'bisect=%s%s' % (op[2], ',repeated-member' if is_dup(op) else '')
+        return 'bisect=%s%s%s' % (op[2], ',repeated-member' if is_dup(op) else '',
+                                  ',unsupported-region' if op[-1] == 'unsupported' else '')
     if is_dup(op):
         return 'repeated-member'
     if kind in ('rename_column', 'rename_layer'):
@@ -1138,9 +1204,9 @@ def op_class(op):
 # ----------------------------------------------------------------------------------- units
 
 NCHUNK = {'quick': {'rect2x2': 16, 'rect3x2': 40, 'mixed6': 8, 'g7': 8, 'rect2x2L': 1, 'rect2x1n': 4, 'hang7r0': 24,
-                    'rect2x2Lw0': 16, 'rect2x2Lw3': 1},
+                    'rect2x2Lw0': 16, 'rect2x2Lw3': 1, 'conv1rt': 1, 'conv2rt': 12},
           'thorough': {'rect2x2': 68, 'rect3x2': 48, 'mixed6': 40, 'g7': 8, 'rect2x2L': 16, 'rect2x1n': 16,
-                       'rect2x2Lw0': 16, 'rect2x2Lw3': 16}}
+                       'rect2x2Lw0': 16, 'rect2x2Lw3': 16, 'conv1rt': 12, 'conv2rt': 12}}
 for _r in range(7):
     NCHUNK['thorough']['hang7r%d' % _r] = 8
     if _r:
